@@ -358,6 +358,7 @@ enum Step {
     Parse { src: String, want: Want },
     Tokenize { src: String },
     CtxNew { ctx: String },
+    CtxDrop { ctx: String },
     CtxSetVar { ctx: String, name: String, value: Value },
     CtxSetFunc { ctx: String, name: String, handler: HSpec },
     Execute { src: String, ctx: String, timeout_ms: Option<u64> },
@@ -371,7 +372,7 @@ enum Step {
     ValueFrom(VF),
     Accessor { which: String, value: Value },
     ResetCounter,
-    Threads { lists: Vec<Vec<Step>>, ms: u64 },
+    Threads { lists: Vec<Vec<Step>>, ms: u64, stagger: Vec<u64> },
 }
 
 fn jget<'a>(o: &'a J, key: &str) -> Option<&'a J> {
@@ -628,6 +629,7 @@ fn parse_step(j: &J) -> Result<Step, E> {
         }
         "tokenize" => Step::Tokenize { src: req_hex(j, "hex")? },
         "ctx_new" => Step::CtxNew { ctx: ctx()? },
+        "ctx_drop" => Step::CtxDrop { ctx: ctx()? },
         "ctx_set_var" => Step::CtxSetVar {
             ctx: ctx()?,
             name: req_hex(j, "name")?,
@@ -733,7 +735,19 @@ fn parse_step(j: &J) -> Result<Step, E> {
             if ms < 0 {
                 return bad("ms must be >= 0");
             }
-            Step::Threads { lists, ms: ms as u64 }
+            // optional per-thread start offsets in nanoseconds (busy-waited after the common barrier): lets the caller
+            // sweep the relative timing of the threads over repeated trials
+            let stagger = match jget(j, "stagger_ns") {
+                Some(J::Arr(a)) => {
+                    let mut v = Vec::new();
+                    for x in a {
+                        v.push(as_i64(x, "stagger_ns")?.max(0) as u64);
+                    }
+                    v
+                }
+                _ => Vec::new(),
+            };
+            Step::Threads { lists, ms: ms as u64, stagger }
         }
         _ => return bad(format!("unknown op \"{}\"", op)),
     })
@@ -1093,7 +1107,8 @@ fn step_tokenize(src: &str) -> String {
 }
 
 fn exec_obs(src: &str, ctx: &mut Context) -> String {
-    let r = guarded(|| parse_expression(src)?.exec(ctx));
+    // the public entry point (its body is part of what is checked); the clone shares the same map
+    let r = guarded(|| execute(src, vh::ctx_share(ctx)));
     result_json(r, vjson)
 }
 
@@ -1191,7 +1206,7 @@ fn unit_obs(r: Result<(), PanicInfo>) -> String {
     }
 }
 
-fn step_threads(lists: &[Vec<Step>], ms: u64) -> String {
+fn step_threads(lists: &[Vec<Step>], ms: u64, stagger: &[u64]) -> String {
     let n = lists.len();
     let barrier = Arc::new(Barrier::new(n.max(1)));
     let results: Arc<Mutex<Vec<Vec<String>>>> = Arc::new(Mutex::new(vec![Vec::new(); n]));
@@ -1202,8 +1217,15 @@ fn step_threads(lists: &[Vec<Step>], ms: u64) -> String {
         let barrier = barrier.clone();
         let results = results.clone();
         let tx = tx.clone();
+        let delay = stagger.get(i).copied().unwrap_or(0);
         let r = spawn_big("vreplay-thread", move || {
             barrier.wait();
+            if delay > 0 {
+                let t0 = Instant::now();
+                while (t0.elapsed().as_nanos() as u64) < delay {
+                    std::hint::spin_loop();
+                }
+            }
             for st in &list {
                 let o = run_step(st, true);
                 lock_any(&results)[i].push(o);
@@ -1256,6 +1278,14 @@ fn run_step(step: &Step, in_threads: bool) -> String {
             }
             Err(p) => panic_json(&p),
         },
+        Step::CtxDrop { ctx } => {
+            // forget the named context: its allocation is freed (unless a hung thread still owns a clone), so that a
+            // context created next may get the same address, as in a program that creates one context per request
+            let mut g = lock_any(&CTXS);
+            let before = g.len();
+            g.retain(|(n, _)| n != ctx);
+            if g.len() < before { OK.to_string() } else { no_ctx(ctx) }
+        }
         Step::CtxSetVar { ctx, name, value } => match ctx_lookup(ctx) {
             None => no_ctx(ctx),
             Some(mut c) => unit_obs(guarded(|| c.set_variable(name, value.clone()))),
@@ -1327,7 +1357,7 @@ fn run_step(step: &Step, in_threads: bool) -> String {
             lock_any(&CALL_LOG).clear();
             OK.to_string()
         }
-        Step::Threads { lists, ms } => step_threads(lists, *ms),
+        Step::Threads { lists, ms, stagger } => step_threads(lists, *ms, stagger),
     }
 }
 
